@@ -596,6 +596,12 @@ def predicates(ctx: Ctx) -> None:
     n = ctx.scale(60, 500) * (4 if getattr(ctx, "deep_search", False) else 1)
     for it in range(n):
         spec = float_spec(rng) if it % 2 else random_spec(rng, nmax=10)
+        if it % 3 == 2:
+            # the zero of energy is arbitrary (total energies of order 1e4-1e5): every statement of C18 is about
+            # energy differences, so the same landscape shifted by a constant must behave the same
+            off = rng.choice([-7400.0, 52000.0, 3.0e5, -2.5e6])
+            spec = {"E": [e + off for e in spec["E"]], "coords": spec["coords"],
+                    "ts": [[u, v, e + off, c] for u, v, e, c in spec["ts"]]}
         nn = len(spec["E"])
         ts_e = [t[2] for t in spec["ts"]]
         top = max(ts_e) if ts_e else 1.0
